@@ -99,6 +99,27 @@ def intersect(r, ref):
     return (a, b) if a <= b else r
 
 
+class _LazyFields:
+    """field name -> range, answered by the owner's param_field_range(param, field) on demand"""
+
+    def __init__(self, f, name):
+        self.f, self.name, self.memo = f, name, {}
+
+    def get(self, k):
+        if k not in self.memo:
+            self.memo[k] = self.f(self.name, k)
+        return self.memo[k]
+
+    def __contains__(self, k):
+        return self.get(k) is not None
+
+    def __getitem__(self, k):
+        return self.get(k)
+
+    def __bool__(self):
+        return True
+
+
 class Ranger:
     def __init__(self, mutated, consts=None, param_range=None):
         self.mutated = mutated  # names assigned after initialisation
@@ -113,6 +134,7 @@ class Ranger:
         self.param_field_range = None  # (param name, field) -> range over all call sites (constant struct arguments)
         self.guard_fn = None  # path -> (index of the guarded argument, index of the bound argument) for guard helper functions
         self.grown = set()  # names of collections that grow after their initialisation (set by the Walker's owner)
+        self.call_concrete = None  # (fn path, [int]) -> value of the call, evaluated by an interpreter (set by the owner), or None
 
     def rng(self, n, env, at=None):
         self.depth += 1
@@ -218,6 +240,14 @@ class Ranger:
                 if H.tag(lit) == "struct":
                     fmap = {f: self.rng(fv, env, at) for f, fv in lit[2]}
                     fmap = {k: v for k, v in fmap.items() if v is not None}
+            if not fmap and H.tag(a0) == "local" and self.param_field_range is not None:
+                b0 = env.get(a0[1], at)
+                if b0 is not None and b0[0] == "param":
+                    # the argument is a parameter of the calling function handed on (`self.unit()` inside `extract(&self, ..)`): its fields
+                    # have the ranges the callers of the calling function give them
+                    fmap = _LazyFields(self.param_field_range, a0[1])
+                elif b0 is not None and b0[0] == "fieldmap":
+                    fmap = b0[1]
             if fmap:
                 e2.set(p[1], ("fieldmap", fmap), 0)
             elif r is not None:
@@ -411,6 +441,8 @@ class Ranger:
             if p == "std::convert::From::from" and len(args) == 1:
                 ga = H.call_gargs(n)
                 r = self.rng(args[0], env, at)
+                if r is None and len(ga) >= 2 and ga[1] == "bool":
+                    return (0, 1)
                 return r if r is not None else (ty_range(ga[0]) if ga else None)
             if last in ("from_be_bytes", "from_le_bytes") and len(args) == 1:
                 ty = p.split("<impl ")[1].split(">")[0] if "<impl " in p else None
@@ -445,6 +477,11 @@ class Ranger:
                 return (0, lb if lb is not None else LEN_MAX)
             if nm in ("size", "size_uncompressed") and not mc["args"]:
                 return (0, SIZE_MAX)
+            if nm == "pow" and len(mc["args"]) == 1 and (mc["path"] or "").startswith("std::num::"):
+                b_, e_ = self.rng(mc["recv"], env, at), self.rng(mc["args"][0], env, at)
+                if b_ is not None and e_ is not None and b_[0] >= 1 and 0 <= e_[0] and e_[1] <= 128 and b_[1] <= (1 << 16):
+                    return (b_[0] ** e_[0], b_[1] ** e_[1])
+                return None
             if nm in ("into", "try_into", "unwrap", "clone") and not mc["args"]:
                 r = self.rng(mc["recv"], env, at)
                 if r is not None:
@@ -522,9 +559,9 @@ class Ranger:
             return out
         if t == "field":
             base = H.strip_refs(n[1])
-            if H.tag(base) == "local" and self.param_field_range is not None:
+            if H.tag(base) == "local":
                 b = env.get(base[1], at)
-                if b is not None and b[0] == "param":
+                if b is not None and b[0] == "param" and self.param_field_range is not None:
                     r = self.param_field_range(base[1], n[2])
                     if r is not None:
                         return r
@@ -1266,6 +1303,22 @@ class Walker:
             seen_lits = []
             sloc = self.local_of(n[1])  # the local the scrutinee is a value-preserving view of
             env = env.child()  # what the arms passed so far have excluded accumulates here
+            # `match f(x) { Some(..) => .., None => unreachable!() }` with f a crate function of one small-range integer: f is evaluated for
+            # every value of x; an Option / Result variant it never returns makes the arm of that variant dead
+            never = set()
+            sc_ = H.strip(n[1])
+            if H.tag(sc_) == "call" and self.r.call_concrete is not None and len(H.call_args(sc_)) == 1 and (H.call_path(sc_) or "").startswith(("crate::", "<crate::")):
+                ar_ = self.r.rng(H.call_args(sc_)[0], env, self.seq)
+                if ar_ is not None and 0 <= ar_[1] - ar_[0] <= 512:
+                    heads = set()
+                    for v_ in range(ar_[0], ar_[1] + 1):
+                        res_ = self.r.call_concrete(H.call_path(sc_), [v_])
+                        heads.add(res_ if isinstance(res_, str) else (res_[0] if isinstance(res_, tuple) and res_ and isinstance(res_[0], str) else "?"))
+                    if heads and heads <= {"Some", "None"}:
+                        never = {"Some", "None"} - heads
+                    elif heads and heads <= {"Ok", "Err"}:
+                        never = {"Ok", "Err"} - heads
+                    never_why = f"{H.call_path(sc_).split('::')[-1]}(x) returns only {sorted(heads)} for x in {ar_}"
             val, val_ok = None, True
             for pat, guard, body in n[3]:
                 e2 = env.child()
@@ -1281,6 +1334,9 @@ class Walker:
                 if sr is not None and pr is not None and (pr[1] < sr[0] or pr[0] > sr[1]):
                     # no value of the scrutinee matches this arm: what stands in it is never executed
                     e2.set("#dead", ("dead-arm", f"the scrutinee {H.short(n[1], maxlen=60)} is within {sr}, the arm matches {pr}"), self.seq)
+                ph_ = (pat[1] if H.tag(pat) in ("ts", "ps", "ppath") and isinstance(pat[1], str) else "").split("::")[-1]
+                if never and ph_ in never:
+                    e2.set("#dead", ("dead-arm", never_why), self.seq)
                 if H.tag(pat) == "lit" and pat[1] == "int" and guard is None:
                     seen_lits.append(int(pat[2]))
                 elif H.tag(pat) == "bind" and pat[5] is None and sr is not None and not same and not (sloc and sloc not in self.r.mutated):
